@@ -287,10 +287,17 @@ func runR174(c *Ctx) {
 						return 1
 					}
 					if cc.IsInvoke() && cc.Method.Name() == "ReplicateMultiple" {
-						if st != 2 {
+						if st != 2 && st != 4 {
 							bad, badPos = "the base replicator is called without holding the semaphore", ev.Ins.Pos()
 						}
 						return st
+					}
+					if _, isDefer := ev.Ins.(*ssa.Defer); isDefer && cc.StaticCallee() != nil && cc.StaticCallee().Name() == "Release" {
+						// `defer semaphore.Release(1)` right after a successful acquire: held until the function returns
+						if st != 2 {
+							bad, badPos = "the semaphore is released without being held (or twice)", ev.Ins.Pos()
+						}
+						return 4
 					}
 					if cc.StaticCallee() != nil && cc.StaticCallee().Name() == "Release" {
 						if st != 2 {
